@@ -276,7 +276,13 @@ fn emit_simple(a: &mut Asm, rng: &mut Rng, o: &ProgOpts) {
                 a.b.push(0x90);
                 a.shape.push('.');
             } else {
-                match rng.below(13) {
+                // legacy byte registers without REX: 0 AL, 1 CL, 2 DL, 4 AH, 5 CH, 6 DH (BL/BH belong to the data pointer)
+                let byte_regs: &[u8] = if o.reserved.contains(&1) { &[0, 2, 4, 6] } else { &[0, 1, 2, 4, 5, 6] };
+                match rng.below(17) {
+                    13 => a.b.extend_from_slice(&[0xb0 | *rng.pick(byte_regs), rng.next() as u8]), // mov r8, imm8 (incl. AH/CH/DH)
+                    14 => a.b.extend_from_slice(&[0x88, 0xc0 | (*rng.pick(byte_regs) << 3) | *rng.pick(byte_regs)]), // mov r8, r8
+                    15 => a.b.extend_from_slice(&[0x0f, 0xb6, 0xc0 | ((*rng.pick(&[0u8, 2, 6, 7])) << 3) | *rng.pick(byte_regs)]), // movzx eax/edx/esi/edi, r8
+                    16 => a.b.extend_from_slice(&[0x00, 0xc0 | (*rng.pick(byte_regs) << 3) | *rng.pick(byte_regs)]), // add r8, r8
                     7 => a.b.extend_from_slice(&[0xf6, 0xe0 | rng.below(4) as u8]), // mul al/cl/dl/bl
                     8 => a.b.extend_from_slice(&[0xf6, 0xe8 | rng.below(4) as u8]), // imul r8
                     9 => a.b.extend_from_slice(&[0xb0, rng.next() as u8]),           // mov al, imm8
